@@ -246,6 +246,8 @@ pub const CORPUS: &[(&str, &str)] = &[
     ("tuple-placeholder", "min sum((_, i) in enumerate(A)) { x_i }\ns.t.\n    x_i >= 1 for (_, i) in enumerate(A)\nwhere\n    let A = [5, 6]\ndefine\n    x_i as Real(0, 9) for i in 0..2\n"),
     ("neigh-edges-of", "min sum((u, v) in neigh_edges_of(\"A\", G)) { x_u_v }\ns.t.\n    x_u_v >= 0 for (u, v) in edges(G)\nwhere\n    let G = Graph {\n        A -> [B, C],\n        B -> [A],\n        C\n    }\ndefine\n    x_u_v as Boolean for (u, v) in edges(G)\n"),
     ("dynamic-bounds", "min sum(i in 0..2) { x_i }\ns.t.\n    x_i >= lo[i] for i in 0..2\nwhere\n    let lo = [1, 2]\n    let hi = [5, 6]\ndefine\n    x_i as Real(lo[i], hi[i]) for i in 0..2\n    k as IntegerRange(len(lo), 2 * 3)\n"),
+    ("constant-arithmetic", "min k * x + m * y_{k - 13}\ns.t.\n    x >= j - 3\n    y_i >= h for i in 0..(k - 12)\nwhere\n    let k = 2 + 3 * 4 - 1\n    let j = -k + 20\n    let m = k / 2\n    let h = (j - m) * 0\ndefine\n    x as Real(0, 100)\n    y_i as Real(0, 9) for i in 0..2\n"),
+    ("unicode-strings", "min x // caf\u{e9} \u{2192} comment\ns.t.\n    x >= len(S)\nwhere\n    let S = [\"\u{e9}\u{2192}\", \"b\u{1f642}\"]\n    let T = \"\u{df}\"\ndefine\n    x as Real\n"),
 ];
 
 pub fn run(mut run: Run) -> ! {
